@@ -21,7 +21,9 @@ namespace Rpft.Drv.ActionCodecD
 open Rpft.Drv
 open Lean Rpft Rpft.ActionCodec
 
-def errJ (e : Err) : Json := Json.str (reprStr e)
+def errJ (e : Err) : Json :=
+  -- `Rpft.ActionCodec.Err.emptyText` → `emptyText`
+  Json.str (((reprStr e).splitOn ".").getLast!)
 
 def itemJ : Item → Json
   | .atom s => strJ s
